@@ -1033,6 +1033,12 @@ def gen_interp(out, parts):
                 and seg_is(src, b[1].value.args[0], '"weight"') and T.dotted(b[1].value.args[1]) == "weight"):
             T.fail(INTERP, fn, "%s: does not start with `weight = weight.lower()` ; `check_argument(\"weight\", weight, str, ...)`" % fn.name)
 
+    def need_shape(fn, shape):
+        """top-level statement kinds of the body (an early return, an extra loop or guard changes it)"""
+        got = [type(st).__name__ for st in T.body_nodoc(fn)]
+        if got != shape:
+            T.fail(INTERP, fn, "%s: body statements %s, expected %s" % (fn.name, got, shape))
+
     def need_clear(fn, out):
         """the output attribute is emptied before the first weighting branch (the model starts from zero)"""
         for st in T.body_nodoc(fn):
@@ -1047,6 +1053,7 @@ def gen_interp(out, parts):
     b = T.body_nodoc(fn)
     if not seg_is(src, b[0], "fattr.clear()"):
         T.fail(INTERP, fn, "interpolate_vertices_to_faces: does not start with fattr.clear()")
+    need_shape(fn, ["Expr", "For", "For", "Return"])
     st = find_stmt(b, lambda n: assign_to(n, "fattr[f]"), "fattr[f] = ...", fn)
     out.append("Definition g_v2f_acc %s : A :=\n    %s.\n" % (hdr, atr(st.value, {"fattr[f]": ("a", "acc"), "vattr[v]": ("a", "x")})[1]))
     st = find_stmt(b, lambda n: aug_to(n, "fattr[f]", ast.Div), "fattr[f] /= ...", fn)
@@ -1066,6 +1073,7 @@ def gen_interp(out, parts):
         T.fail(INTERP, fn, "interpolate_faces_to_vertices: accepted weights %s" % ws)
     need_lower(fn)
     need_clear(fn, "vattr")
+    need_shape(fn, ["Assign", "Expr", "Expr", "If", "Return"])
     bu = branch_of(fn, "uniform")
     st = find_stmt(bu, lambda n: assign_to(n, "vattr[v]"), "vattr[v] = sum(...)", fn)
     if not seg_is(src, st.value, "sum([fattr[f] for f in v2f])"):
@@ -1103,6 +1111,7 @@ def gen_interp(out, parts):
     parts.append(("interpolate.py:average_corners_to_vertices", T.sha(src, fn)))
     need_lower(fn)
     need_clear(fn, "vattr")
+    need_shape(fn, ["Assign", "Expr", "Expr", "If", "Return"])
     bb = branch_of(fn, "uniform")
     st = find_stmt(bb, lambda n: assign_to(n, "vattr[v]"), "vattr[v] = ...", fn)
     out.append("Definition g_c2v_uniform_acc %s : A :=\n    %s.\n" % (hdr, atr(st.value, {"vattr[v]": ("a", "acc"), "cattr[c]": ("a", "x")})[1]))
@@ -1129,6 +1138,7 @@ def gen_interp(out, parts):
     parts.append(("interpolate.py:average_corners_to_faces", T.sha(src, fn)))
     need_lower(fn)
     need_clear(fn, "fattr")
+    need_shape(fn, ["Assign", "Expr", "Expr", "If", "Return"])
     bb = branch_of(fn, "uniform")
     st = find_stmt(bb, lambda n: assign_to(n, "fattr[F]"), "fattr[F] = ...", fn)
     out.append("Definition g_c2f_uniform_acc (acc x : A) (n : Z) : A :=\n    %s.\n"
@@ -1150,10 +1160,12 @@ def gen_interp(out, parts):
     # ---- scatters: plain copies
     fn = T.find_def(tree, "scatter_vertices_to_corners", INTERP)
     parts.append(("interpolate.py:scatter_vertices_to_corners", T.sha(src, fn)))
+    need_shape(fn, ["For", "Return"])
     if not any(isinstance(n, ast.Assign) and seg_is(src, n, "cattr[c] = vattr[v]") for n in ast.walk(fn)):
         T.fail(INTERP, fn, "scatter_vertices_to_corners: `cattr[c] = vattr[v]` changed")
     fn = T.find_def(tree, "scatter_faces_to_corners", INTERP)
     parts.append(("interpolate.py:scatter_faces_to_corners", T.sha(src, fn)))
+    need_shape(fn, ["For", "Return"])
     if not any(isinstance(n, ast.Assign) and seg_is(src, n, "cattr[c] = fattr[F]") for n in ast.walk(fn)):
         T.fail(INTERP, fn, "scatter_faces_to_corners: `cattr[c] = fattr[F]` changed")
 
